@@ -69,7 +69,7 @@ def gen_case(seed, n):
         ops = []
         for _ in range(r.randrange(8, 22)):
             k = r.random()
-            kind = "get" if k < 0.50 else "refresh" if k < 0.70 else "purge" if k < 0.78 else "slowget" if k < 0.90 else "fill"
+            kind = "get" if k < 0.42 else "reval" if k < 0.54 else "refresh" if k < 0.70 else "purge" if k < 0.78 else "slowget" if k < 0.90 else "fill"
             ops.append((kind, r.randrange(c["nurls"]), r.choice([0, 0, 0, 2, 10, 30, 80])))
         threads.append(ops)
     c["threads"] = threads
@@ -126,6 +126,15 @@ def run(a, res):
             u["nver"] += 1
             k = u["nver"]
         c = u["case"]
+        inm = httpref.get(req.headers, "If-None-Match")
+        if inm is not None and not u.get("fill"):
+            with vlock:
+                cur = versions.get(by_path.get(path, [None])[-1]) if by_path.get(path) else None
+            if cur is not None and cur["status"] == 200 and inm.strip() == cur["etag"] and k % 4 != 0:
+                res.count("origin_answered_304")
+                # same rid, same validators and mark: only an unrelated header changes (and grows) with every revalidation
+                return Resp(304, [("Cache-Control", "max-age=3600"), ("ETag", cur["etag"]), ("X-Verif-Mark", cur["mark"]), ("X-Reval", "g%d-" % k + "x" * (k % 7) * 40)],
+                            body=b"", framing="none", rid=cur["rid"])
         r = random.Random(f"C10v:{c['oseed']}:{u['idx']}:{k}")
         status = r.choice(STATUSES)
         n = pick_len(r)
@@ -253,6 +262,10 @@ def run(a, res):
             hs = [("Connection", "close")]
             if kind == "refresh":
                 hs.append(("Cache-Control", "no-cache"))
+            if kind == "reval":
+                # forces a revalidation; the origin answers 304 with CHANGED headers for the current version, so squid rewrites
+                # the stored headers (StoreMap update / header splice on slot-based stores) while keeping the body
+                hs.append(("Cache-Control", "max-age=0"))
             try:
                 conn = SlowConn(sq.port, 0.004) if kind == "slowget" else Conn(sq.port, timeout=40)
             except OSError:
